@@ -29,13 +29,16 @@ from tangermeme.tools import tomtom as TT
 from tangermeme.tools.tomtom import tomtom
 
 SCOPE = {
-    'quick': 'one-hot query sets of length 1-3 against 6 fixed one-hot target sets (with / without rc); ~45 seeded random '
-             'query/target sets: 1-4 queries and 2-5 targets of length 1-25 (shorter / equal / longer), PWM columns on grids '
-             '1/1 (one-hot), 1/2, 1/4, 1/10, 1/20 and continuous Dirichlet, n_score_bins in {10,25,50,100,127,128,150,200} '
-             '(n_cache raised to n_score_bins so that offset <= n_cache), rc on/off, hashing off or 100 bins verified injective; '
-             'self-match sets; rc-target metamorphic pairs; every (query, target) cell compared with the reference',
-    'thorough': 'same families; all one-hot queries of length 1-3 against 12 fixed target sets; random sets until the time '
-                'budget (several hundred), up to 6 queries x 8 targets, every n_score_bins in 10..200 sampled',
+    'quick': 'one-hot queries (all of length 1, 6 of length 2, 6 of length 3, co-processed in groups of 4) against 6 fixed '
+             'one-hot target sets, rc on/off, n_score_bins in {20,100,127,200}; up to 1000 seeded random query/target sets '
+             '(time permitting): 1-4 queries and 2-5 targets of length 1-25 (shorter / equal / longer), PWM columns on grids 1/1 '
+             '(one-hot), 1/2, 1/4, 1/10, 1/20 and continuous Dirichlet, optionally drawn from a pool of 3-6 columns, '
+             'n_score_bins in {10,25,50,100,127,128,150,200} (n_cache raised to n_score_bins when > 100 so that offset <= '
+             'n_cache), rc on/off, hashing off or 100 bins verified injective; a quarter of the sets contain the queries as '
+             'targets (self-match); every third set also as rc-target metamorphic pair; every (query, target, strand) cell '
+             'and every merged cell is compared',
+    'thorough': 'same families; all 84 one-hot queries of length 1-3 against 12 fixed target sets; random sets until the time '
+                'budget (a few thousand), up to 6 queries x 8 targets, n_score_bins uniformly from 10..200 in half of the sets',
 }
 
 ALPH = 'ACGT'
